@@ -1,4 +1,6 @@
 import AscaVerif.Model.Mods
+import AscaVerif.Model.Render
+import AscaVerif.Model.ParseWord
 /-! Line-protocol driver for the model (compiled `lean_exe`; imports the model only — core Lean). -/
 open Asca
 
@@ -104,7 +106,7 @@ def opMRule (seg : Seg) (inm outm : Modifiers) : Res Seg :=
   | .panic p => .panic p
   | .outOfFuel p => .outOfFuel p
 
-def handleOp (line : String) : String :=
+def handleOp0 (line : String) : String :=
   let ts := (line.splitOn " ").filter (· != "")
   match ts with
   | "mrule" :: rest =>
@@ -126,15 +128,75 @@ def handleOp (line : String) : String :=
     | none => "bad-op"
   | _ => "bad-op"
 
-partial def opsLoop (h : IO.FS.Stream) (out : IO.FS.Stream) : IO Unit := do
+/-- flat word format: `<americanist 0/1> <nsyll> { <stress 0/1/2> <tone> <nseg> { r m l p }* }*` -/
+def parseSegs : Nat → List String → Option (List Seg × List String)
+  | 0, ts => some ([], ts)
+  | n + 1, ts => do
+    let (s, rest) ← parseSeg ts
+    let (ss, rest') ← parseSegs n rest
+    pure (s :: ss, rest')
+
+def parseSylls : Nat → List String → Option (List Syll × List String)
+  | 0, ts => some ([], ts)
+  | n + 1, st :: tone :: nseg :: rest => do
+    let st ← st.toNat?; let tone ← tone.toNat?; let nseg ← nseg.toNat?
+    let (segs, rest') ← parseSegs nseg rest
+    let (σs, rest'') ← parseSylls n rest'
+    let stress := if st == 1 then Stress.primary else if st == 2 then Stress.secondary else Stress.unstressed
+    pure ({ segs := segs, stress := stress, tone := tone } :: σs, rest'')
+  | _, _ => none
+
+def parseWordFlat : List String → Option (Word × List String)
+  | am :: ns :: rest => do
+    let am ← am.toNat?; let ns ← ns.toNat?
+    let (σs, rest') ← parseSylls ns rest
+    pure ({ sylls := σs, americanist := am == 1 }, rest')
+  | _ => none
+
+def showWord (w : Word) : String :=
+  let sy (σ : Syll) : String :=
+    let st := match σ.stress with | .primary => "1" | .secondary => "2" | .unstressed => "0"
+    s!"{st} {σ.tone} {σ.segs.length}" ++ String.join (σ.segs.map fun s => " " ++ segLine s)
+  s!"{if w.americanist then 1 else 0} {w.sylls.length}" ++ String.join (w.sylls.map fun σ => " " ++ sy σ)
+
+def showText (t : Text) : String := " ".intercalate (t.map toString)
+
+structure DState where
+  ord : Render.Table := Gen.cardinals
+
+def handleOp (st : DState) (line : String) : DState × String :=
+  let ts := (line.splitOn " ").filter (· != "")
+  match ts with
+  | "setorder" :: idx =>
+    match idx.mapM String.toNat? with
+    | some is =>
+      let tbl := is.filterMap (fun i => Gen.cardinals[i]?)
+      if tbl.length == Gen.cardinals.length then ({ st with ord := tbl }, "ok") else (st, "bad-op")
+    | none => (st, "bad-op")
+  | "render" :: rest =>
+    match parseWordFlat rest with
+    | some (w, _) => (st, showRes showText (Render.renderWord st.ord w))
+    | none => (st, "bad-op")
+  | "renderseg" :: rest =>
+    match parseSeg rest with
+    | some (s, _) => (st, showRes (fun o => match o with | some t => showText t | none => "none") (Render.segToText st.ord s))
+    | none => (st, "bad-op")
+  | "parsew" :: cps =>
+    match cps.mapM String.toNat? with
+    | some t => (st, showRes showWord (ParseWord.parseInput t))
+    | none => (st, "bad-op")
+  | _ => (st, handleOp0 line)
+
+partial def opsLoop (h : IO.FS.Stream) (out : IO.FS.Stream) (st : DState) : IO Unit := do
   let line ← h.getLine
   if line.isEmpty then return ()
-  out.putStrLn (handleOp (line.dropRightWhile (· == '\n')))
-  opsLoop h out
+  let (st', ans) := handleOp st (line.dropRightWhile (· == '\n'))
+  out.putStrLn ans
+  opsLoop h out st'
 
 def main (args : List String) : IO UInt32 := do
   match args with
   | ["enum-c18"] => enumC18; return 0
   | "tables" :: what => dumpTables what; return 0
-  | ["ops"] => opsLoop (← IO.getStdin) (← IO.getStdout); return 0
+  | ["ops"] => opsLoop (← IO.getStdin) (← IO.getStdout) {}; return 0
   | _ => IO.eprintln s!"unknown driver mode {args}"; return 2
